@@ -267,6 +267,8 @@ def run_property(pid, tier, seed, jobs, replay=None):
             return 1
         return 0 if obs[0]["status"] in ("ok", "skip") else 2
     run = Run(pid, tier, seed, jobs)
+    import shutil
+    shutil.rmtree(os.path.join(REPLAYS, pid), ignore_errors=True)   # replays of this run only
     cases = list(drv.cases(tier, seed))
     chunk = max(1, min(64, len(cases) // (jobs * 8) or 1))
     chunks = [(pid, cases[i:i + chunk]) for i in range(0, len(cases), chunk)]
